@@ -83,6 +83,7 @@ type segment[T TSTable, O any] struct {
 	refCount      int32
 	mustBeDeleted uint32
 	id            segmentID
+	removed       bool // guarded by mu: performDelete has removed the directory
 }
 
 func (sc *segmentController[T, O]) openSegment(ctx context.Context, startTime, endTime time.Time, path, suffix string, groupCache *groupCache,
@@ -350,6 +351,12 @@ func (s *segment[T, O]) performDelete() {
 		// retries the delete.
 		return
 	}
+	if s.removed {
+		// delete() and the last DecRef can both get here. The directory is gone and
+		// a successor segment may already live at the same path: never remove twice.
+		return
+	}
+	s.removed = true
 	s.closeResourcesLocked()
 	s.lfs.MustRMAll(s.location)
 }
